@@ -18,8 +18,13 @@ DCS_FNS = [r'^dcs::set_\w+::\w+::(instruction|fill_params_buf|new|with_all|as_u8
            r'^dcs::InterfaceExt::write_(command|raw)$', r'^dcs::lemma_basic_opcodes$',
            r'^dcs::set_\w+::lemma_\w+_params$', r'^dcs::set_\w+::\w+::lemma_params_len$', r'^vf::u16_to_be_bytes$']
 
+NOT_APPLICABLE = {}
+
 PROPS = {
     'C14': {
+        'level_text': 'Unbounded proof. Verus discharges, for the real text of SetAddressMode::{new,with_*,from,fill_params_buf} and MemoryMapping::from_orientation, postconditions equating the byte with a spec function written from the MIPI bit layout, plus bit-vector lemmas (disjoint masks, commutation, idempotence, bits 1-0 zero) over all 256 bytes. Kani re-proves the same statements on the compiled crate over all 256 x 2 x 8 x 4 inputs and all 6 setter orders (loop-free, complete) and supplies counterexamples.',
+        'level_note': 'Trusted: Verus/Z3, Kani/CBMC, extractor rewrite table, derived Default (assume_specification, executed for real by the Kani harness). The meaning of the three orientation bits is tied to pixel placement by lemma vf::lemma_mapping_places_pixels (C01).',
+        'technique': 'Verus contracts + bit_vector lemmas on extracted code; Kani full-domain harnesses',
         'verus': {'cfgs': ['default'],
                   'fns': [r'^dcs::set_address_mode::SetAddressMode::(new|with_color_order|with_orientation|with_refresh_order|from|fill_params_buf|instruction)$',
                           r'^vf::lemma_(bits_u8|field_bits|madctl_setters)$',
@@ -33,6 +38,9 @@ PROPS = {
         'assumptions': ['derived Default of SetAddressMode yields byte 0 (assume_specification; derive output is not under Verus proof, Kani harness c14_madctl_all_inputs executes the real derive)'],
     },
     'C15': {
+        'level_text': 'Unbounded proof. Verus: try_from_degree (Ok iff multiple of 90, congruent mod 360, no overflow) for all i32; rotate/flip_* equal spec functions whose geometric meaning (pre-rotated clockwise / pre-mirrored image, for every panel size and point) and group laws are proved as lemmas, including that placement determines the orientation. Kani: same statements on the compiled code for all 2^32 angles and symbolic u16 sizes/points (loop-free, complete).',
+        'level_note': 'Trusted: i32::rem_euclid specification in Verus (the Kani harness runs the real core implementation over all i32); Verus/Z3, Kani/CBMC, extractor.',
+        'technique': 'Verus contracts + geometry lemmas; Kani full-domain harnesses',
         'verus': {'cfgs': ['default'],
                   'fns': [r'^options::orientation::Rotation::(degree|try_from_degree|rotate|is_horizontal|is_vertical)$',
                           r'^options::orientation::Orientation::(new|rotate|flip_horizontal|flip_vertical|flip_horizontal_absolute|flip_vertical_absolute)$',
@@ -44,6 +52,9 @@ PROPS = {
         'assumptions': ['i32::rem_euclid(a, b>0) == a mod b (assume_specification; Kani harness c15_try_from_degree_all_i32 runs the real core implementation over all 2^32 angles)'],
     },
     'C16': {
+        'level_text': 'Unbounded proof, generic in the Model and the transport: Verus proves set_vertical_scroll_region sends exactly one 0x33 with big-endian tfa,vsa,bfa summing to FRAMEBUFFER_SIZE.1, passes top/bottom through when they fit, and that no arithmetic operation can overflow; set_vertical_scroll_offset sends 0x37 + be16(offset). Kani proves the same through a recording Interface for framebuffer heights 1,160,320,480,536,65535 over all u16 x u16 and yields replayable counterexamples (found the u16 overflow fixed in /repo).',
+        'level_note': 'Assumes the Interface trait contract for third-party transports (one Cmd event per send_command); u16::to_be_bytes wrapper contract (re-checked by Kani).',
+        'technique': 'Verus contracts generic in M/DI; Kani complete harnesses per framebuffer height; native replay',
         'verus': {'cfgs': ['default'],
                   'fns': [r'^Display::set_vertical_scroll_(region|offset)$', r'^dcs::set_scroll_(area|start)::',
                           r'^dcs::InterfaceExt::write_(command|raw)$', r'^vf::u16_to_be_bytes$']},
@@ -58,6 +69,9 @@ PROPS = {
                         'Kani instantiations: framebuffer heights {1,160,320,480,536,65535}; Verus: every Model'],
     },
     'C18': {
+        'level_text': 'Unbounded proof. A trait-level contract on DcsCommand (instruction == MIPI opcode; fill_params_buf writes exactly params(), returns its length, leaves the rest of the buffer unchanged) is discharged by Verus for all 18 command types (the 10 macro-generated ones are verified inside the macro and pinned to the opcode table by a lemma); write_command/write_raw append exactly Cmd(opcode, params). Kani re-proves it on the compiled crate over all u16^2 / u16^3 / enum values and buffer contents.',
+        'level_note': 'Trusted: vstd slice specs (copy_from_slice, range indexing); u16::to_be_bytes wrapper (Kani: all 65536 values); Interface trait contract for generic transports.',
+        'technique': 'Verus trait contracts on extracted code incl. macro output; Kani full-domain harnesses',
         'verus': {'cfgs': ['default'], 'fns': DCS_FNS},
         'kani': {'groups': [{'quick': ['c18_be16_all_u16', 'c18_caset_raset_all', 'c18_scroll_all', 'c18_enums_all', 'c18_write_raw_passthrough']}]},
         'pairs': {r'^dcs::': ['c18_caset_raset_all', 'c18_scroll_all', 'c18_enums_all', 'c18_write_raw_passthrough'], r'u16_to_be_bytes': ['c18_be16_all_u16']},
